@@ -31,8 +31,9 @@ def check_bed(spec, ctx):
     mode = spec["mode"]  # chrom | chunk
     cs, ce = spec["chunk"]
     on_chunk = spec["parent"] == "chunk"
+    cstrand = spec.get("chunk_strand", "+")
     if on_chunk:
-        parent = chunk_parent(g, cs, ce)
+        parent = chunk_parent(g, cs, ce, strand=cstrand)
     elif spec["parent"] == "chrom":
         parent = chrom_parent(g)
     else:
@@ -63,6 +64,14 @@ def check_bed(spec, ctx):
         ctx.label("chunk_mode_without_chunk")
     else:
         shift = cs if mode == "chunk" else 0
+    # a chunk that is the reverse complement of its window: chunk coordinate of chromosome position p is ce-1-p, so a block
+    # [s, e) reads [ce-e, ce-s) there, the block order is reversed and the strand is the opposite one
+    mirrored = mode == "chunk" and on_chunk and cstrand == "-"
+    if mirrored:
+        ctx.label("chunk_relative&minus_chunk")
+
+    def conv(block):
+        return (ce - block[1], ce - block[0]) if mirrored else (block[0] - shift, block[1] - shift)
     # the same record may be written to several tracks: a second export (and one with another score) of the same object
     # must be the same line (apart from the score); the second line is the one that is decoded below
     first = str(bed)
@@ -93,15 +102,15 @@ def check_bed(spec, ctx):
                  [d["thick_start"], d["thick_end"]])
     # decoding gives back the blocks
     dec = [(d["start"] + s, d["start"] + s + z) for s, z in zip(d["starts"], d["sizes"])]
-    ctx.eq("decoded_blocks", dec, [(s - shift, e - shift) for s, e in blocks])
-    ctx.eq("decoded_span", (d["start"], d["end"]), (lo - shift, hi - shift))
-    ctx.eq("decoded_strand", d["strand"], strand)
+    ctx.eq("decoded_blocks", dec, sorted(conv(b) for b in blocks))
+    ctx.eq("decoded_span", (d["start"], d["end"]), conv((lo, hi)))
+    ctx.eq("decoded_strand", d["strand"], {"+": "-", "-": "+"}[strand] if mirrored else strand)
     ctx.eq("decoded_chrom", d["chrom"], "chr1")
     ctx.eq("decoded_score", d["score"], spec["score"])
     ctx.eq("decoded_rgb", d["rgb"], ",".join(str(x) for x in spec["rgb"]))
     if coding:
         cds = obj_spec["cds"]
-        ctx.eq("decoded_cds_bounds", (d["thick_start"], d["thick_end"]), (cds[0][0] - shift, cds[-1][1] - shift))
+        ctx.eq("decoded_cds_bounds", (d["thick_start"], d["thick_end"]), conv((cds[0][0], cds[-1][1])))
     # name
     attr_names = {"tx": ["transcript_symbol", "transcript_id", "protein_id"], "feat": ["feature_name", "feature_id"]}[kind]
     if name_sel in attr_names:
@@ -130,7 +139,7 @@ def strat_bed(draw, tier="quick"):
     cs = draw(st.sampled_from([0, lo, max(0, lo - 1)] + list(range(0, lo + 1))))
     ce = draw(st.sampled_from([hi, n] + list(range(hi, n + 1))))
     return {"kind": kind, "obj": obj, "genome": g, "chunk": [cs, ce], "parent": draw(st.sampled_from(["chunk", "chunk", "chrom", "none"])),
-            "mode": draw(st.sampled_from(["chrom", "chunk"])), "name": draw(st.sampled_from(names)), "score": draw(st.integers(0, 1000)),
+            "chunk_strand": draw(st.sampled_from(["+", "+", "-"])), "mode": draw(st.sampled_from(["chrom", "chunk"])), "name": draw(st.sampled_from(names)), "score": draw(st.integers(0, 1000)),
             "rgb": [draw(st.integers(0, 255)) for _ in range(3)]}
 
 
@@ -146,7 +155,7 @@ PROP = Prop(
     pid="C14",
     legs=[
         Leg("bed12", check_bed, strategy=strat_bed, examples=EX, n_quick=1500, n_thorough=15000,
-            must_hit=["chunk_relative&cs>0", "coding", "minus", "touching_blocks"],
+            must_hit=["chunk_relative&cs>0", "coding", "minus", "touching_blocks", "chunk_relative&minus_chunk"],
             rule="transcripts (coding or not) and features of 1..5 blocks on both strands x parent {chunk containing the interval, whole chromosome, none} x export mode {chromosome, chunk-relative} x name selector x score x RGB; the text of the record is parsed by an independent 12-column reader"),
     ],
     rule="Oracle: BED12 format invariants + decoding back to blocks/strand/name/CDS bounds. Non-trivial: >=2 blocks and (chunk-relative with chunk start > 0, or coding).",
